@@ -260,6 +260,9 @@ func histories(c *ev.Ctx) {
 			seenPrefix[k] = true
 			c.Inc("states")
 		}
+		if len(hist) == 3 {
+			c.Sample("history-3", names(ops, hist))
+		}
 		if d != "" {
 			reportHistory(c, ops, fresh, hist, nil, d)
 		}
@@ -424,6 +427,7 @@ func mapOrder(c *ev.Ctx) {
 		e := shim.RunEnv(nil, func() { base = observeCase(cs, docs) })
 		c.Inc("traces_validated_against_impl")
 		c.Inc("map_order_scenarios")
+		c.Sample(fmt.Sprintf("maporder-%d-decisions", len(e.Decisions)/4), map[string]any{"scenario": cs.Describe(), "order_decisions": len(e.Decisions)})
 		c.Eval(len(e.Decisions) > 0)
 		c.Add("transitions", int64(len(e.Decisions)))
 		var explore func(prefix []int, from int, left int)
